@@ -56,6 +56,29 @@ theorem C15_set_value_lookups (s s' : Section) (k : Key) (v : Str) (h : s.setVal
 example : ∃ s', exSec.setValue (.str ['a']) ['9'] = .ok s' ∧ s'.find (.str ['A']) = some 0 := by
   refine ⟨_, rfl, ?_⟩; decide
 
+/-- `s.pop(i)` (used by `delete_curve(ix=...)`) and `del s[i]` are the same operation for every integer, in or out of range,
+with the same error: an integer key never matches a session mnemonic -/
+theorem C15_pop_eq_del_int (s : Section) (n : Int) : s.pop n = s.delitem (.int n) := by
+  unfold Section.pop Section.delitem
+  rw [(C15_int_as_list s n).2]
+  cases hp : pyIndex s.items.length n <;> simp
+
+/-- deleting removes exactly one entry from the key lists (session names and originals) at the addressed position and
+keeps all the others in order -/
+theorem C15_delete_keys (s s' : Section) (k : Key) (h : s.delitem k = .ok s') :
+    ∃ i, s.getitem k = .ok i ∧ s'.keys = s.keys.eraseIdx i ∧ s'.origs = s.origs.eraseIdx i ∧
+      s'.items.length + 1 = s.items.length := by
+  obtain ⟨i, hg, hi, _, hitems⟩ := C15_delete_exact s s' k h
+  refine ⟨i, hg, ?_, ?_, ?_⟩
+  · unfold Section.keys; rw [hitems, List.eraseIdx_eq_take_drop_succ]; simp [List.map_take, List.map_drop]
+  · unfold Section.origs; rw [hitems, List.eraseIdx_eq_take_drop_succ]; simp [List.map_take, List.map_drop]
+  · rw [hitems]; simp; omega
+
+example : exSec.pop (-1) = exSec.delitem (.int (-1)) ∧ (∃ s', exSec.pop (-1) = .ok s' ∧ s'.items.length = 1) := by
+  refine ⟨C15_pop_eq_del_int _ _, _, rfl, by decide⟩
+
 end Lasio
 
 #print axioms Lasio.C15_set_value_lookups
+#print axioms Lasio.C15_pop_eq_del_int
+#print axioms Lasio.C15_delete_keys
